@@ -90,6 +90,8 @@ type World struct {
 	lowered    map[string]bool // collections that saw a lowering overwrite (C13)
 	churnStore *otherStore
 
+	lenient  bool      // call(): a swallowed fault is recorded in absorbed instead of failing (CopyTo)
+	absorbed bool
 	deep     bool      // a full (cache-disturbing) comparison is in progress
 	visiting []*Handle // handles with a visit in flight (nested ops must not close them)
 
@@ -287,6 +289,10 @@ func (w *World) call(name string, hasErr bool, f func() error) (ok bool) {
 		w.ev["fault_fired"]++
 		w.ev["fault_in_"+name]++
 		p.FiredOp = w.opIdx
+		if hasErr && err == nil && w.lenient {
+			w.absorbed = true // the caller verifies that the result is nevertheless complete and correct
+			return true
+		}
 		if hasErr && err == nil {
 			w.failf("error-swallowed:"+name, "injected %s failure (call %d) during %s was swallowed: the call returned a nil error",
 				p.FiredKind, p.FailAt, name)
